@@ -95,6 +95,7 @@ def run(scn, log, st):
             for k in ('gt', 'eq', 'lt'):
                 outs[k] = hw.wire(k)
             FixedPointComparator(hw, 'dut', feed[0], af, feed[1], af, outs['gt'], outs['eq'], outs['lt'])
+    st.sched(scn.get('perm'), tuple(tuple(x['faults']) for x in scn['steps']))
     if scn.get('perm') is not None:
         seams.perm_children(hw, random.Random(scn['perm']), st)
     with quiet():
